@@ -169,6 +169,36 @@ template<int LD, bool LS, int RD, bool RS, class Fam>
     }
 }
 
+// elastic_integer with a built-in integer operand on either side (the built-in is lifted with from_value)
+template<int LD, bool LS, class Fam, class BI>
+[[gnu::noinline]] void prog_builtin()
+{
+    using L = EI<LD, LS, Fam>;
+    std::string name = std::string("builtin<") + std::to_string(LD) + (LS ? "s" : "u") + ",narrowest" + Fam::name + "," + vf::tn<BI>() + ">";
+    bool full = vals::is_full<BI>(8);
+    if (!vf::begin(name, full)) return;
+    long lhi = (1l << LD) - 1, llo = LS ? -lhi : 0;
+    auto const Bs = vals::space<BI>(8, 4);
+    for (long a = llo; a <= lhi; ++a) {
+        if (!vf::my_row()) continue;
+        for (BI b : Bs) {
+            auto id = [&] { return std::to_string(a) + "," + vf::to_s(b); };
+            if (vf::replaying() && !vf::case_selected(id())) continue;
+            // the most negative value of a signed built-in type is outside the symmetric range of the elastic type it is
+            // lifted to (from_value gives elastic_integer<digits of BI>): not an in-range operand in the property's sense
+            if (vals::is_signed_v<BI> && b == vals::min_v<BI>()) {
+                vf::skip_pre();
+                continue;
+            }
+            vf::counted(Big(b).neg != (a < 0) || a == lhi || a == llo);
+            if (vf::want_sample()) vf::sample(name + " " + id());
+            bool const mixed = LS != vals::is_signed_v<BI>;
+            check_pair<L, BI>(Big(a), Big(b), id(), mixed ? (Big(b).neg ? "builtin_negative_elastic_unsigned" : "mixed_signedness") : "same_signedness");
+            check_pair<BI, L>(Big(b), Big(a), id(), mixed ? (Big(b).neg ? "builtin_on_left/builtin_negative_elastic_unsigned" : "builtin_on_left/mixed_signedness") : "builtin_on_left/same_signedness");
+        }
+    }
+}
+
 template<int D>
 std::vector<Big> corners(bool is_signed)
 {
@@ -262,6 +292,17 @@ static void group()
 #if VF_PART >= 1 && VF_PART <= 7
     values_row<VF_PART, Fam8>(std::make_integer_sequence<int, 7>{});
     values_row<VF_PART, Fam32>(std::make_integer_sequence<int, 7>{});
+#elif VF_PART >= 2000
+    constexpr int D = VF_PART - 2000;
+    prog_builtin<D, false, Fam32, i8>();
+    prog_builtin<D, true, Fam32, i8>();
+    prog_builtin<D, false, Fam32, u8>();
+    prog_builtin<D, true, Fam32, u8>();
+    prog_builtin<D, false, Fam32, i32>();
+    prog_builtin<D, true, Fam32, u32>();
+    prog_builtin<D, false, Fam8, i8>();
+    prog_builtin<D, false, Fam32, i64>();
+    prog_builtin<D, true, Fam8, u64>();
 #elif VF_PART >= 1000
     corners_row<VF_PART - 1000, FamW, VF_WIDE_DIGITS>();
 #elif VF_PART >= 100
